@@ -889,6 +889,38 @@ theorem only_packet_contract_logs_drive_send {σ : Type} (k : Consts) (send : σ
   unfold hook hookAccepts
   simp [h]
 
+/-- **The hook filters each log of a receipt on its own**: in a receipt with any mixture of genuine logs of the
+packet contract and look-alike logs of other contracts, in any order, the keeper does exactly what it would do
+for the receipt with the foreign logs removed — a genuine log elsewhere in the same transaction lends a forged
+one no authority. -/
+theorem hook_filters_each_log {σ : Type} (k : Consts) (send : σ → σ) (logs : List Address) (s : σ) :
+    hookRun k send logs s = hookRun k send (logs.filter (fun a => a == k.packetC)) s := by
+  induction logs generalizing s with
+  | nil => rfl
+  | cons a rest ih =>
+    by_cases h : a = k.packetC
+    · subst h
+      simp only [hookRun, List.filter_cons, beq_self_eq_true, ↓reduceIte]
+      exact ih _
+    · have hb : (a == k.packetC) = false := by simpa using h
+      simp only [hookRun, List.filter_cons, hb, Bool.false_eq_true, ↓reduceIte]
+      rw [only_packet_contract_logs_drive_send k send a s h]
+      exact ih _
+
+/-- counting form: the number of sends is the number of logs emitted by the packet contract itself. -/
+theorem hook_counts_genuine_logs (k : Consts) (logs : List Address) (n : Nat) :
+    hookRun k (fun m => m + 1) logs n = n + (logs.filter (fun a => a == k.packetC)).length := by
+  induction logs generalizing n with
+  | nil => simp [hookRun]
+  | cons a rest ih =>
+    by_cases h : a = k.packetC
+    · subst h
+      simp only [hookRun, hook, hookAccepts, beq_self_eq_true, ↓reduceIte, List.filter_cons, List.length_cons]
+      rw [ih]; omega
+    · have hb : (a == k.packetC) = false := by simpa using h
+      simp only [hookRun, hook, hookAccepts, hb, Bool.false_eq_true, ↓reduceIte, List.filter_cons]
+      exact ih _
+
 /-- the privileged rows of the table, spelled out (a change of the table must change this statement). -/
 theorem privileged_rows :
     (table.filter (fun r => privileged r.1)).map (fun r => (r.1.contract, r.1.name, r.2)) =
